@@ -85,5 +85,29 @@ def main():
     build('ss2', ['-t', 'ext4', '-O', '^has_journal,sparse_super2,^resize_inode,uninit_bg,^metadata_csum', '-I', '256', '-N', '256'] + G, 1536, post=[D])
     build('resizeino', ['-t', 'ext4', '-O', '^has_journal,resize_inode,^metadata_csum,uninit_bg', '-I', '256', '-N', '256', '-E', 'resize=8192'] + G, 1536, post=[D])
     build('mmp', ['-t', 'ext4', '-O', '^has_journal,mmp,metadata_csum,^resize_inode', '-I', '256', '-N', '256'] + G, 1536, post=[D])
-if __name__ == '__main__':
+if __name__ == '__main__' and len(sys.argv) == 1:
     main()
+
+def build_extj():
+    """external-journal pair (needs a loop device once, at corpus build time only): corpus/extj.img.xz + corpus/extjdev.img.xz"""
+    sc = scratch(); env = tool_env()
+    jdev = os.path.join(sc, 'extjdev.img'); img = os.path.join(sc, 'extj.img'); root = os.path.join(sc, 'extj.root')
+    os.makedirs(root)
+    open(os.path.join(root, 'f12'), 'wb').write(bytes(((i * 7 + 4) & 0xff) for i in range(12 * 1024 + 1)))
+    open(os.path.join(root, 'one'), 'wb').write(b'x')
+    rc, out = run([tool('mke2fs'), '-q', '-F', '-O', 'journal_dev', '-b', '1024', '-U', '11111111-2222-3333-4444-555555555555', jdev, '1024'], env=env)
+    assert rc == 0, out
+    loop = subprocess.check_output(['losetup', '-f', '--show', jdev]).decode().strip()
+    try:
+        rc, out = run([tool('mke2fs'), '-q', '-F', '-t', 'ext4', '-O', '^metadata_csum,^64bit,^resize_inode', '-b', '1024', '-g', '256', '-N', '64', '-U', UUID,
+                       '-E', 'hash_seed=' + SEED, '-d', root, '-J', 'device=' + loop, img, '1024'], env=env)
+        assert rc == 0, out
+    finally:
+        subprocess.call(['losetup', '-d', loop])
+    rc, out = run([tool('e2fsck'), '-fn', '-j', jdev, img], env=env)
+    assert rc == 0, out
+    for n, p in (('extj', img), ('extjdev', jdev)):
+        open(os.path.join(VERIF, 'corpus', n + '.img.xz'), 'wb').write(lzma.compress(open(p, 'rb').read(), preset=6))
+    print('extj pair built')
+if __name__ == '__main__' and len(sys.argv) > 1 and sys.argv[1] == 'extj':
+    build_extj()
